@@ -1051,14 +1051,18 @@ func (obj *Package) DefLambda(name string, lam *Lambda, fc func(args List) Objec
 			Kind:   kind,
 		}
 		obj.funcs[name] = &fi
-		if vv := obj.vars[name]; vv != nil && Unbound == vv.Val && vv.Export && vv.Pkg == obj {
+		if vv := obj.vars[name]; vv != nil && vv.Export && vv.Pkg == obj {
+			// The symbol is exported, so is its new function.
 			fi.Export = true
-			delete(obj.vars, name)
-			// The packages using this one get the function in place of
-			// the placeholder.
+			placeholder := Unbound == vv.Val
+			if placeholder {
+				delete(obj.vars, name)
+			}
+			// The packages using this one get the function, in place of
+			// the placeholder if the variable is just that.
 			for _, u := range obj.Users {
 				u.mu.Lock()
-				if u.vars[name] == vv {
+				if placeholder && u.vars[name] == vv {
 					delete(u.vars, name)
 				}
 				if xf := u.funcs[name]; xf == nil || (xf.Pkg == u && xf.Doc == nil) {
